@@ -612,7 +612,14 @@ ssize_t vw_sendto(int fd, const void *buf, size_t len, int flags,
 	struct sockaddr_storage d;
 	memset(&d, 0, sizeof d);
 	if (dstlen > sizeof d) dstlen = sizeof d;
+	/* like the kernel, look only at the address proper (iodined passes sizeof(sockaddr_storage) and whatever
+	 * its stack held beyond the sockaddr_in) */
+	{
+		socklen_t need = dst->sa_family == AF_INET ? sizeof(struct sockaddr_in) : dst->sa_family == AF_INET6 ? sizeof(struct sockaddr_in6) : dstlen;
+		if (dstlen > need) dstlen = need;
+	}
 	memcpy(&d, dst, dstlen);
+	if (d.ss_family == AF_INET) memset(((struct sockaddr_in *)&d)->sin_zero, 0, 8);
 	int di = vw_dgram_new(&s->addr, s->addrlen, &d, dstlen, buf, (int)len, W.cur);
 	if (!W.hooks.on_send) vw_fatal("no on_send hook");
 	W.hooks.on_send(di);
@@ -783,19 +790,24 @@ static void hash_dgram(h128 *h, int di)
 	h128_update(h, d->data, d->len);
 }
 
-void vw_hash_world(uint64_t out[2], int include_stacks)
+void vw_hash_world(uint64_t out[2], int flags)
 {
 	h128 h;
+	int include_stacks = flags & 1, coarse = flags & 2;
+	/* coarse time (E-B): the images see time only through time() (whole seconds) and relative
+	 * select() deadlines, so the sub-second part of the clock is not part of the state */
+	int64_t tbase = coarse ? W.now : 0;
+	int64_t tnow = coarse ? W.now / 1000000 : W.now;
 	h128_init(&h);
-	h128_update(&h, &W.now, sizeof W.now);
-	for (int i = 0; i < nsections; i++)
+	h128_update(&h, &tnow, sizeof tnow);
+	if (!(flags & 4)) for (int i = 0; i < nsections; i++)
 		h128_update(&h, sections[i].start, sections[i].stop - sections[i].start);
 	for (int p = 0; p < VW_MAXPROC; p++) {
 		vw_proc *pr = &W.proc[p];
 		h128_update(&h, &pr->state, sizeof pr->state);
 		if (pr->state == VW_P_UNUSED) continue;
 		h128_update(&h, &pr->exit_code, sizeof pr->exit_code);
-		h128_update(&h, &pr->deadline, sizeof pr->deadline);
+		{ int64_t dl = pr->deadline == VW_NEVER ? VW_NEVER : pr->deadline - tbase; h128_update(&h, &dl, sizeof dl); }
 		h128_update(&h, &pr->rand_state, sizeof pr->rand_state);
 		if (pr->rfds && pr->state == VW_P_SELECT) {
 			h128_update(&h, &pr->nfds, sizeof pr->nfds);
@@ -842,7 +854,7 @@ void vw_hash_world(uint64_t out[2], int include_stacks)
 			if (best < 0) break;
 			done[best] = 1;
 			vw_event *e = &W.ev[best];
-			h128_update(&h, &e->at, sizeof e->at);
+			{ int64_t at = e->at - tbase; h128_update(&h, &at, sizeof at); }
 			h128_update(&h, &e->kind, sizeof e->kind);
 			if (e->kind == VW_EV_DELIVER) { h128_update(&h, &e->b, sizeof e->b); hash_dgram(&h, e->a); }
 			else if (e->kind == VW_EV_TUN) { h128_update(&h, &e->a, sizeof e->a); h128_update(&h, &e->b, sizeof e->b); h128_update(&h, e->pkt, e->pktlen); }
@@ -850,4 +862,130 @@ void vw_hash_world(uint64_t out[2], int include_stacks)
 		}
 	}
 	h128_final(&h, out);
+}
+
+/* ------------------------------------------------------------------ */
+/* in-process snapshots (E-B without fork): valid only while every process is blocked and the
+ * network is at rest (no datagram or event pending), which is where E-B takes them. */
+
+/* lowest page of process p's stack that has ever been touched */
+static char *stack_low_water(int p)
+{
+	static unsigned char vec[(VW_STACK >> 12) + 2];
+	vw_proc *pr = &W.proc[p];
+	size_t pages = pr->stacksz >> 12;
+	if (mincore(pr->stack, pr->stacksz, vec) != 0) vw_fatal("mincore failed");
+	for (size_t i = 0; i < pages; i++) if (vec[i] & 1) return pr->stack + (i << 12);
+	return pr->stack + pr->stacksz;
+}
+
+struct vw_snap {
+	vw_world w;
+	ucontext_t ctx[VW_MAXPROC];
+	void *fake[VW_MAXPROC];
+	struct { char *at; size_t len; char *data; } stk[VW_MAXPROC];
+	struct { char *data; size_t len; } sec[16];
+	int nsec;
+	struct { void *p; size_t n; char *data; } reg[VW_SNAP_MAXREG];
+	int nreg;
+	char note[64];
+	unsigned char *tunpk[VW_MAXTUN][64];   /* deep copies of the packets queued on the tun devices */
+};
+
+vw_snap *vw_snapshot(void)
+{
+#if VW_ASAN
+	vw_fatal("vw_snapshot is not available in ASan builds (use fork mode)");
+#endif
+	if (W.cur != -1) vw_fatal("snapshot while a process runs");
+	for (int i = 0; i < VW_MAXDGRAM; i++) if (W.dg[i].used) vw_fatal("snapshot with a datagram in flight");
+	for (int i = 0; i < VW_MAXEVENTS; i++) if (W.ev[i].used) vw_fatal("snapshot with a pending event");
+	vw_snap *s = malloc(sizeof *s);
+	if (!s) vw_fatal("snapshot: out of memory");
+	memcpy(&s->w, &W, sizeof W);
+	memcpy(s->ctx, proc_ctx, sizeof proc_ctx);
+	memcpy(s->fake, proc_fake, sizeof proc_fake);
+	for (int p = 0; p < VW_MAXPROC; p++) {
+		s->stk[p].data = NULL; s->stk[p].len = 0;
+		if (!vw_alive(p)) continue;
+		if (W.proc[p].state == VW_P_READY) vw_fatal("snapshot of a process that never ran");
+		/* the whole touched part of the stack, dead frames below the stack pointer included: code that reads an
+		 * uninitialised local (the defect class of C12/C14) sees what earlier calls left there, and a restored
+		 * state must show it the bytes of its own history, exactly as a forked child or a replay would */
+		char *top = W.proc[p].stack + W.proc[p].stacksz;
+		char *sp = stack_low_water(p);
+		s->stk[p].at = sp; s->stk[p].len = top - sp;
+		s->stk[p].data = malloc(s->stk[p].len);
+		raw_copy(s->stk[p].data, sp, s->stk[p].len);
+	}
+	for (int i = 0; i < VW_MAXSOCK; i++) if (W.sock[i].used && W.sock[i].qn) vw_fatal("snapshot with a datagram queued on a socket");
+	memset(s->tunpk, 0, sizeof s->tunpk);
+	for (int t = 0; t < VW_MAXTUN; t++) if (W.tun[t].used)
+		for (int k = 0; k < W.tun[t].rxn; k++) {
+			vw_tunpkt *tp = &W.tun[t].rx[(W.tun[t].rxh + k) & 63];
+			s->tunpk[t][k] = malloc(tp->len ? tp->len : 1);
+			memcpy(s->tunpk[t][k], tp->data, tp->len);
+		}
+	s->nsec = nsections;
+	for (int i = 0; i < nsections; i++) {
+		s->sec[i].len = sections[i].stop - sections[i].start;
+		s->sec[i].data = malloc(s->sec[i].len ? s->sec[i].len : 1);
+		memcpy(s->sec[i].data, sections[i].start, s->sec[i].len);
+	}
+	s->nreg = 0;
+	memset(s->note, 0, sizeof s->note);
+	if (W.hooks.snap_regions) {
+		vw_region r[VW_SNAP_MAXREG];
+		int n = W.hooks.snap_regions(r, VW_SNAP_MAXREG, s->note);
+		for (int i = 0; i < n; i++) {
+			s->reg[i].p = r[i].p; s->reg[i].n = r[i].n;
+			s->reg[i].data = malloc(r[i].n ? r[i].n : 1);
+			memcpy(s->reg[i].data, r[i].p, r[i].n);
+		}
+		s->nreg = n;
+	}
+	return s;
+}
+
+void vw_restore(const vw_snap *s)
+{
+	if (W.cur != -1) vw_fatal("restore while a process runs");
+	/* anything the abandoned branch left allocated */
+	for (int i = 0; i < VW_MAXDGRAM; i++) if (W.dg[i].used) { free(W.dg[i].data); W.dg[i].used = 0; }
+	for (int i = 0; i < VW_MAXEVENTS; i++) if (W.ev[i].used) { free(W.ev[i].pkt); W.ev[i].used = 0; }
+	for (int p = 0; p < VW_MAXPROC; p++)
+		for (int i = s->w.proc[p].nsys; i < W.proc[p].nsys; i++) free(W.proc[p].sys[i]);
+	for (int t = 0; t < VW_MAXTUN; t++) if (W.tun[t].used)
+		for (int k = 0; k < W.tun[t].rxn; k++) free(W.tun[t].rx[(W.tun[t].rxh + k) & 63].data);
+	long nevents = W.nevents, ndelivered = W.ndelivered;
+	int reports = W.sanitizer_reports;
+	memcpy(&W, &s->w, sizeof W);
+	/* the snapshot's own packet pointers may have been consumed since: queue fresh copies */
+	for (int t = 0; t < VW_MAXTUN; t++) if (W.tun[t].used)
+		for (int k = 0; k < W.tun[t].rxn; k++) {
+			vw_tunpkt *tp = &W.tun[t].rx[(W.tun[t].rxh + k) & 63];
+			tp->data = malloc(tp->len ? tp->len : 1);
+			memcpy(tp->data, s->tunpk[t][k], tp->len);
+		}
+	W.nevents = nevents; W.ndelivered = ndelivered; W.sanitizer_reports = reports;     /* statistics keep counting */
+	memcpy(proc_ctx, s->ctx, sizeof proc_ctx);
+	memcpy(proc_fake, s->fake, sizeof proc_fake);
+	for (int p = 0; p < VW_MAXPROC; p++)
+		if (s->stk[p].data) {
+			char *low = stack_low_water(p);
+			if (low < s->stk[p].at) memset(low, 0, s->stk[p].at - low);     /* pages first touched after the snapshot */
+			raw_copy(s->stk[p].at, s->stk[p].data, s->stk[p].len);
+		}
+	for (int i = 0; i < s->nsec; i++) memcpy(sections[i].start, s->sec[i].data, s->sec[i].len);
+	for (int i = 0; i < s->nreg; i++) memcpy(s->reg[i].p, s->reg[i].data, s->reg[i].n);
+	if (W.hooks.snap_restored) W.hooks.snap_restored(s->note);
+}
+
+void vw_snap_free(vw_snap *s)
+{
+	for (int p = 0; p < VW_MAXPROC; p++) free(s->stk[p].data);
+	for (int i = 0; i < s->nsec; i++) free(s->sec[i].data);
+	for (int i = 0; i < s->nreg; i++) free(s->reg[i].data);
+	for (int t = 0; t < VW_MAXTUN; t++) for (int k = 0; k < 64; k++) free(s->tunpk[t][k]);
+	free(s);
 }
